@@ -3,6 +3,7 @@
 (* Step-level trace validation of the parser.  Every recorded call carries *)
 (* the events the cfg-guarded hook logged inside the real parser:          *)
 (*      ["G", n]   generate_ast entered with the precedence of ordinal n   *)
+(*      ["L", n]   an iteration of the operator loop of such a frame       *)
 (*      ["T", k]   a token of kind k became the current token              *)
 (* This module drives ParserMachine through each recorded event list: the  *)
 (* machine's own transitions produce its event history `evs`, which must   *)
